@@ -92,7 +92,7 @@ def mutation(draw, spec, serial=0):
         kinds += ['cast', 'dimension']
         if op.get('cast'):
             kinds += ['cast-clear']
-    kinds += ['hdr-seq']
+    kinds += ['hdr-seq', 'set-rename']
     if not kinds:
         return {'kind': 'none', 'op': j}
     kind = 'value-kind' if rekind and draw(st.integers(0, 3)) else draw(st.sampled_from(kinds))
@@ -125,6 +125,11 @@ def mutation(draw, spec, serial=0):
             m['data'] = {'dt': d['dt'], 'shape': d['shape'], 'hex': arr.tobytes().hex()}
     elif kind == 'hdr-seq':
         m['seq'] = draw(st.sampled_from([2, 77, 1234567890]))
+    elif kind == 'set-rename':
+        # the set the object lives in gets a (fresh) name, or loses its name if no unnamed set of the type exists
+        unnamed_exists = any(o['t'] == op['t'] and o.get('set') is None for o in ops)
+        m['set'] = None if (op.get('set') is not None and not unnamed_exists and draw(st.booleans())) \
+            else 'SET-' + str(serial)
     elif kind == 'dimension':
         w = list(op['data']['shape'][1:]) or [1]
         m['dim'] = draw(st.sampled_from([w, [w[0] + 1], [max(1, w[0] - 1)]]))
@@ -226,6 +231,14 @@ def apply_mutation_to_spec(spec, m):
         op.setdefault('attrs', {})['dimension'] = {'v': m['dim'], 'r': 'later'}
     elif m['kind'] == 'hdr-seq':
         spec['lfs'][0].setdefault('hdr', {})['seq'] = m['seq']
+    elif m['kind'] == 'set-rename':
+        old = op.get('set')
+        for o in spec['lfs'][0]['ops']:
+            if o['t'] == op['t'] and o.get('set') == old and o['t'] != 'nfdata':
+                if m['set'] is None:
+                    o.pop('set', None)
+                else:
+                    o['set'] = m['set']
 
 
 def apply_mutation_to_objects(built, spec, m):
@@ -248,6 +261,8 @@ def apply_mutation_to_objects(built, spec, m):
         item.dimension.value = m['dim']
     elif m['kind'] == 'hdr-seq':
         built.lfs[0].file_header.sequence_number = m['seq']
+    elif m['kind'] == 'set-rename':
+        item.parent.set_name = m['set']
 
 
 def localise(a, b):
@@ -296,7 +311,7 @@ class C14(Property):
                  "zygote fork, cross-checked with a real subprocess) for the net specification")
     rule = ("cases: histories of 3-10 steps (build; write with drawn chunk sizes and row window; write again; mutate an "
             "attribute value (same kind, or another kind for attributes without a fixed representation code) / object name / origin reference / channel data (same or other dtype and width) / cast "
-            "dtype (set, cleared) / channel DIMENSION / header sequence number; high-compatibility write of an "
+            "dtype (set, cleared) / channel DIMENSION / header sequence number / name of a set; high-compatibility write of an "
             "unrelated file; write with only part of the data dict) over 1-2 specifications drawn from pools {0, -0.0, "
             "0.0, False, 1, 1.0, True, 2, 2.0}, 8 strings (two of 128 and 200 characters), 3 names, named and unnamed "
             "sets; every write is judged against a fresh process; non-trivial = >= 2 writes or a mutation before the "
